@@ -24,6 +24,20 @@ PFX = {'Int32': 'i32', 'UInt32': 'u32', 'Int64': 'i64', 'UInt64': 'u64'}
 VROUTES = ['direct', 'cstr', 'charptr', 'literal', 'setlive', 'setc', 'retype', 'copy', 'assign', 'move', 'swap', 'value']
 LITERALS = [b'', b'a', b'abc', b'hello world', b'm V', '\u00e4\u00f6\u20ac'.encode('utf-8')]      # the table of string literals of the harness
 GET_TYPES = ['Bool', 'Int32', 'UInt32', 'Int64', 'UInt64', 'Double', 'String', 'CStr', 'None', 'NoneT']
+# live handles to the one property a line may go through (harness/drv_C14.cpp select_handle)
+HANDLES = ['c', 'k', 'i', 'f', 'x', 'l', 's']
+
+
+def with_handles(lines, rnd, p=0.6):
+    out = []
+    for l in lines:
+        if l.startswith(('new_', 'reopen ', 'v')) or rnd.random() > p:
+            out.append(l)
+        else:
+            out.append('@%s %s' % (rnd.choice(HANDLES), l))
+    return out
+
+
 UTF8 = ['äöü', '€', '\U0001F600', '日本語', 'µV', 'Ω']
 
 
@@ -187,7 +201,7 @@ class C14(Prop):
                 lines.append(r.choice(['obs', 'obs', 'obs:alt']))
         lines.append('reopen ' + r.choice(['ro', 'rw']))
         lines.append('obs')
-        return Case(lines, tag)
+        return Case(with_handles(lines, r), tag)
 
     def generate(self, seed, tier, scale=1):
         rnd = random.Random(seed)
@@ -276,6 +290,18 @@ class C14(Prop):
         cases.append(Case(['cmp ' + hexs(b'q'), 'pstr', 'new_v i32:1', 'pstr'] + ['cmp ' + hexs(x) for x in
                           [b'q', b'o', b'p', b'pa', b'P', b'a', b'~', b' p', b'p ', 'ä'.encode('utf-8'), b'\x7f', b'\x80', b'pp']] +
                           ['obs', 'reopen ro', 'cmp ' + hexs(b'q'), 'cmp ' + hexs(b'p'), 'pstr', 'reopen rw', 'cmp ' + hexs(b'p'), 'obs'], 'compare'))
+        # several live handles to the one property: assign / clear / attributes through one handle, read through every other one
+        for act in HANDLES:
+            t = rnd.choice(TYPES)
+            L = ['new_t ' + t] + ['@%s obs' % h for h in HANDLES]
+            L += ['@%s set %s' % (act, ' '.join(g.vec(t, 3)))] + ['@%s obs' % h for h in HANDLES] + ['@%s count' % h for h in HANDLES]
+            L += ['@%s set %s' % (act, ' '.join(g.vec(t, 12)))] + ['@%s obs:alt' % h for h in HANDLES]
+            L += ['@%s clear' % act] + ['@%s count' % h for h in HANDLES]
+            L += ['@%s unit %s' % (act, hexs(b' m V ')), '@%s unc d:3ff8000000000000' % act, '@%s def %s' % (act, hexs(b'text'))] + ['@%s obs' % h for h in HANDLES]
+            L += ['@%s set %s' % (act, ' '.join(g.vec(t, 1))), '@%s unit_none' % act] + ['@%s obs' % h for h in HANDLES]
+            L += ['reopen ro'] + ['@%s obs' % h for h in HANDLES] + ['@%s clear' % act] + ['@%s count' % h for h in HANDLES]
+            L += ['reopen rw', '@%s set %s' % (act, ' '.join(g.vec(t, 9)))] + ['@%s obs' % h for h in HANDLES]
+            cases.append(Case(L, 'handles'))
         # 4. random histories
         for i in range(1500 * mult):
             t = TYPES[i % 7]
@@ -320,9 +346,14 @@ class C14(Prop):
         ctx['ev']['model_variant'] = os.environ.get('C14_MODEL', 'repaired')
         # which public entry points the generated cases call, and how often (evidence only)
         cases = self.generate(ctx['seed'], ctx['tier'], 1)
-        cmd, routes = {}, {}
+        cmd, routes, hs = {}, {}, {}
         for c in cases:
             for l in c.lines:
+                if l.startswith('@'):
+                    hs[l[1]] = hs.get(l[1], 0) + 1
+                    l = l.split(' ', 1)[1]
+                else:
+                    hs['c (default)'] = hs.get('c (default)', 0) + 1
                 head = l.split(' ', 1)[0]
                 base, _, rt = head.partition(':')
                 cmd[base] = cmd.get(base, 0) + 1
@@ -348,6 +379,10 @@ class C14(Prop):
                        'copy': 'copy constructor', 'assign': 'operator=', 'move': 'move constructor + move assignment',
                        'swap': 'Variant::swap + nix::swap', 'value': 'nix::Value: constructors, copy, move, assignment, swap, set(none), get<T>'},
             'requests': routes}
+        ctx['ev']['handle_routes'] = {'legend': {'c': 'the handle createProperty returned / first fetched after reopen', 'k': 'kept second handle by name',
+                                                 'i': 'kept handle by id', 'f': 'fresh handle by name', 'x': 'fresh handle by index',
+                                                 'l': 'fresh handle out of Section::properties()', 's': 'fresh handle through a fresh Section handle'},
+                                      'lines': hs}
         ctx['ev']['entry_points_not_covered'] = ['decimal rendering of a double by operator<< (printed, not compared)',
                                                  'Property::compare of two properties with EMPTY names (cannot be created through the API)']
         return []
@@ -355,7 +390,8 @@ class C14(Prop):
     # ---- reporting -------------------------------------------------------------------------------
     def signature(self, case, impl, spec):
         k = next((i for i, (a, b) in enumerate(zip(impl, spec)) if b != 'ANY' and not self.compare(a, b)), 0)
-        cmd = case.lines[k].split(' ')[0]
+        tk = case.lines[k].split(' ')
+        cmd = (tk[1] if tk[0].startswith('@') and len(tk) > 1 else tk[0]).split(':')[0]
         a = impl[k]
         if a.startswith('CRASH'):
             # which call chain dies: reading a never-written string / an unholdable type
@@ -365,7 +401,7 @@ class C14(Prop):
         if cmd.startswith('new_') and spec[k] == 'ERR':
             return {'defect': 'accepted', 'cmd': cmd, 'type-class': ('unholdable' if cmd == 'new_t' else 'value')}
         if cmd in ('obs', 'count'):
-            prev = [case.lines[i].split(' ')[0] for i in range(k) if spec[i] == 'ERR']
+            prev = [[x for x in case.lines[i].split(' ') if not x.startswith('@')][0].split(':')[0] for i in range(k) if spec[i] == 'ERR']
             return {'defect': 'trace-after-rejected', 'cmd': prev[-1] if prev else '?'}
         return {'defect': 'other', 'cmd': cmd}
 
